@@ -597,7 +597,7 @@ def build(ast, world: World):
     if k == 'dl':
         return {name: build(a, world) for (name, a) in ast[1]}
     if k == 'ann':
-        return t.Annotated[build(ast[1], world), _conditions()[ast[2]]]  # type: ignore
+        return t.Annotated[(build(ast[1], world),) + tuple(_conditions()[c] for c in ast[2:])]  # type: ignore  # one or more conditions
     if k == 'tagged':
         from pane.annotations import Tagged
         ext = ast[2]
@@ -901,7 +901,7 @@ def subst(ast, binding):
     if ast[0] == 'dl':
         return ['dl', [[n, subst(a, binding)] for (n, a) in ast[1]]]
     if ast[0] == 'ann':
-        return ['ann', subst(ast[1], binding), ast[2]]
+        return ['ann', subst(ast[1], binding)] + list(ast[2:])
     if ast[0] in ('gen', 'gen2'):
         return [ast[0], ast[1]] + [subst(a, binding) for a in ast[2:]]
     if ast[0] == 'tagged':
@@ -1091,7 +1091,7 @@ def normalise_unions(ast):
     if k == 'dl':
         return ['dl', [[n, normalise_unions(a)] for (n, a) in ast[1]]]
     if k == 'ann':
-        return ['ann', normalise_unions(ast[1]), ast[2]]
+        return ['ann', normalise_unions(ast[1])] + list(ast[2:])
     if k in ('union', 'opt'):
         members = []
         _flatten_union_members(ast, members)
